@@ -158,3 +158,36 @@ CONTRACTS += [
                       "at_most": "card(E(result)) <= (num_edges if num_edges >= 0 else 0)",
                       "unweighted": "not weighted(result)"}),
 ]
+
+# ---- HyMMSBMSampler._mcmc_step (C16): one step of the chain, for every outcome of the draws and of the accept / reject decision: the list keeps its
+# length, every position keeps its size, and every node occurs in as many hyperedges as before (so conditioned degrees and size counts, which are
+# functions of these numbers, are carried from the initial configuration through the whole chain). The acceptance probability is numerics outside
+# the subset: the calls that compute it are declared opaque (ASSUMED to leave hye_list and the sampler's counters alone; they receive tuples).
+import z3 as _z3
+from ..pyvc import ty as _T
+from ..pyvc import theory as _TH
+_SI = _T.Set(_T.INT)
+_AT = _z3.ArraySort(_T.I, _SI.sort())
+OCC = _z3.Function("occ", _AT, _T.I, _T.I, _T.I)      # occ(at, n, x): number of positions k < n with x in at[k]
+_at, _n, _i, _x, _S = _z3.Const("_oat", _AT), _z3.Int("_on"), _z3.Int("_oi"), _z3.Int("_ox"), _z3.Const("_oS", _SI.sort())
+_TH.EXTRA.update({
+    "occ_0 (definition)": _z3.ForAll([_at, _x], OCC(_at, 0, _x) == 0, patterns=[OCC(_at, 0, _x)]),
+    "occ_step (definition)": _z3.ForAll([_at, _n, _x], _z3.Implies(_n >= 0, OCC(_at, _n + 1, _x) == OCC(_at, _n, _x) + _z3.If(_at[_n][_x], 1, 0)),
+                                        patterns=[OCC(_at, _n + 1, _x)]),
+    # replacing one position changes the count by what that position contributed (lean/Occ.lean: occ_update, by induction on n)
+    "occ_update (lemma, proved in Lean)": _z3.ForAll(
+        [_at, _i, _S, _n, _x], _z3.Implies(_z3.And(0 <= _i, _i < _n),
+                                           OCC(_z3.Store(_at, _i, _S), _n, _x) == OCC(_at, _n, _x) - _z3.If(_at[_i][_x], 1, 0) + _z3.If(_S[_x], 1, 0)),
+        patterns=[OCC(_z3.Store(_at, _i, _S), _n, _x)]),
+})
+LEAN_LEMMAS_C16 = ["lean/Occ.lean"]
+LAYOUTS = [Layout("HyMMSBMSampler", {"accept_count": "Int", "reject_count": "Int"},
+                  views={"occ": lambda eng, p, self_, L, x: _T.sv_int(OCC(L.at, L.len, eng.coerce(x, _T.INT).t))})]
+CONTRACTS += [
+    Contract("HyMMSBMSampler._mcmc_step", SAMPLER, ["HyMMSBMSampler", "_mcmc_step"], self_cls="HyMMSBMSampler", properties=["C16"],
+             options={"opaque:hye_list_to_binary_incidence", "opaque:poisson_params", "opaque:log_kappa", "opaque:_transition_prob"},
+             params={"hye_list": "Seq[Set[Int]]"}, modifies=["accept_count", "reject_count"], modifies_args={"hye_list": []},
+             ensures={"len": "len(hye_list) == len(old(hye_list))",
+                      "sizes": "all(implies(0 <= k and k < len(hye_list), card(hye_list[k]) == card(old(hye_list)[k])) for k in Int)",
+                      "degrees": "all(occ(self, hye_list, x) == occ(self, old(hye_list), x) for x in Node)"}),
+]
